@@ -18,7 +18,7 @@ from decimal import Decimal
 from lxml import etree
 
 from . import core, mdibops
-from .history import canon, first_difference, snap, snap_equal, xml_canon
+from .history import canon, canon_descriptor, first_difference, snap, snap_equal, xml_canon
 from .mdibharness import MDIB_FILES, World
 from .props import c03 as base
 
@@ -33,50 +33,81 @@ class Judge:
         self.recorded = []   # [label, object, canonical form when it was published]
 
     def publish(self, label, obj):
-        if not any(r[1] is obj for r in self.recorded):
+        if not any(r[1] is obj and r[0] == label for r in self.recorded):
             self.recorded.append([label, obj, canon(obj)])
 
-    def forget(self, obj):
-        self.recorded[:] = [r for r in self.recorded if r[1] is not obj]
+    def forget(self, obj, label):
+        """obj is going to be mutated as hand-out <label>: it is no longer a witness of what was published under that label (if the SAME object
+        is also recorded under another label - e.g. retained for the periodic report - that record stays: it must not be the same object)."""
+        self.recorded[:] = [r for r in self.recorded if not (r[1] is obj and r[0] == label)]
 
-    def _check(self, label, cls_name, path, before, counter):
-        ctx = self.ctx
-        after = snap(self.mdib, with_index_check=False)
-        diffs = snap_equal(before, after)
-        ctx.count('isolation.mutations')
-        ctx.count(counter)
-        if diffs or before['hvl'] != after['hvl'] or before['sizes'] != after['sizes']:
-            ctx.witness(f'isolation.{label}', f'mutating an object handed out by the MDIB ({label}) changed the MDIB without a commit',
-                        {'class': cls_name, 'path': path, 'diff': diffs[:2], 'mdib_file': self.mdib_file})
-            return False
+    def _light(self, obj):
+        """the MDIB objects that carry the handle(s) of obj + the version group: cheap, looked at after every single mutation."""
+        mdib = self.mdib
+        out = [(mdib.mdib_version, mdib.sequence_id, mdib.instance_id, getattr(mdib, 'mddescription_version', None),
+                getattr(mdib, 'mdstate_version', None))]
+        for h in sorted({getattr(obj, 'Handle', None), getattr(obj, 'DescriptorHandle', None)} - {None}):
+            d = mdib.descriptions.handle.get_one(h, allow_none=True)
+            out.append(canon_descriptor(d) if d is not None else None)
+            st = mdib.states.descriptor_handle.get_one(h, allow_none=True)
+            out.append(canon(st) if st is not None else None)
+            st = mdib.context_states.handle.get_one(h, allow_none=True)
+            out.append(canon(st) if st is not None else None)
+            out.append(tuple(canon(x) for x in mdib.context_states.descriptor_handle.get(h, [])))
+        return out
+
+    def _published_intact(self, label, cls_name, path):
         for rec in list(self.recorded):
             rlabel, robj, rcanon = rec
             now = canon(robj)
             if now != rcanon:
-                ctx.witness(f'isolation.published_changed.{rlabel}.via.{label}',
-                            f'mutating an object handed out by the MDIB ({label}) changed what an earlier commit published ({rlabel})',
-                            {'class': cls_name, 'path': path, 'diff': first_difference(rcanon, now), 'mdib_file': self.mdib_file})
+                self.ctx.witness(f'isolation.published_changed.{rlabel}.via.{label}',
+                                 f'mutating an object handed out by the MDIB ({label}) changed what an earlier commit published ({rlabel})',
+                                 {'class': cls_name, 'path': path, 'diff': first_difference(rcanon, now), 'mdib_file': self.mdib_file})
                 self.recorded.remove(rec)
                 return False
         return True
 
     def mutate_all(self, label, obj, counter=None):
-        """-> number of mutations done.  Stops at the first mutation that shows through (one witness per object)."""
+        """-> number of mutations done.  Stops at the first mutation that shows through (one witness per object).
+
+        After EVERY mutation: the MDIB objects with the handle(s) of obj, the version group, everything recorded as published.  Before the first
+        and after the last mutation of the object: the full snapshot (content of all tables, saved versions, sizes)."""
         if obj is None:
             return 0
-        self.forget(obj)   # the object itself may of course change
+        ctx = self.ctx
+        self.forget(obj, label)   # the object itself may of course change
         cls_name = type(obj).__name__
+        counter = counter or f'reach.{label}'
+        full_before = snap(self.mdib, with_index_check=False)
+        light = self._light(obj)
         n = 0
+        ok = True
         for path, thunk in list(base.deep_mutations(obj)):
-            before = snap(self.mdib, with_index_check=False)
             try:
                 thunk()
             except Exception:  # noqa: BLE001  (a value the container refuses)
                 continue
             n += 1
-            self.ctx.case((label, cls_name, path))
-            if not self._check(label, cls_name, path, before, counter or f'reach.{label}'):
+            ctx.case((label, cls_name, path))
+            ctx.count('isolation.mutations')
+            ctx.count(counter)
+            now = self._light(obj)
+            if now != light:
+                ctx.witness(f'isolation.{label}', f'mutating an object handed out by the MDIB ({label}) changed the MDIB without a commit',
+                            {'class': cls_name, 'path': path, 'diff': first_difference(tuple(light), tuple(now)), 'mdib_file': self.mdib_file})
+                ok = False
                 break
+            if not self._published_intact(label, cls_name, path):
+                ok = False
+                break
+        if ok and n:
+            full_after = snap(self.mdib, with_index_check=False)
+            diffs = snap_equal(full_before, full_after)
+            if diffs or full_before['hvl'] != full_after['hvl'] or full_before['sizes'] != full_after['sizes']:
+                ctx.witness(f'isolation.{label}', f'mutating an object handed out by the MDIB ({label}) changed the MDIB without a commit',
+                            {'class': cls_name, 'path': '(one of the paths of this object; the change is not in the MDIB objects of its own handle)',
+                             'diff': diffs[:2], 'mdib_file': self.mdib_file})
         return n
 
 
@@ -131,47 +162,59 @@ def w_entity_refresh(ctx: core.Ctx, arg):
             ctx.count(f'entity_update.{what}.raised.{type(ex).__name__}')
 
     # -- multi-state entities ---------------------------------------------------------------------
-    for n, dh in enumerate(cat['context'][:2]):
-        for rnd, getter in enumerate(GETTERS if n == 0 else GETTERS[:1]):
-            tag = f'er{n}{rnd}'
-            for k in range(3):
-                with mdib.context_state_transaction() as mgr:
-                    _rich_context_state(mdib, mgr.mk_context_state(dh, f'{tag}_{k}'), rng, f'{tag}_{k}')
-            ent = _entity_via(mdib, getter, dh)           # the application keeps this entity
-            held = set(ent.states)
-            # foreign commits (another part of the application, an operation handler ...)
-            with mdib.context_state_transaction() as mgr:       # an existing state changes
-                st = mgr.get_context_state(f'{tag}_0')
-                _rich_context_state(mdib, st, rng, f'{tag}_0b')
-            n_res = len(sink.results)
-            with mdib.context_state_transaction() as mgr:       # a NEW state appears (classic interface)
-                _rich_context_state(mdib, mgr.mk_context_state(dh, f'{tag}_new', set_associated=True), rng, f'{tag}_new')
-            ent_other = mdib.entities.by_handle(dh)             # another new state (entity interface), one state removed
-            _rich_context_state(mdib, ent_other.new_state(f'{tag}_new2'), rng, f'{tag}_new2')
-            del ent_other.states[f'{tag}_2']
+    # directed rounds: entity from each getter, ALL kinds of foreign commits before update().  Extra rounds (seeded): a random subset of the
+    # foreign commits in random order, the entity is refreshed and edited in several cycles.
+    acts_all = ('update_existing', 'new_classic', 'new_entity_and_delete', 'descriptor')
+    rounds = [(n, getter, acts_all, 1) for n in range(min(2, len(cat['context']))) for getter in (GETTERS if n == 0 else GETTERS[:1])]
+    for _ in range(arg.get('extra', 2)):
+        acts = [a for a in acts_all if rng.random() < 0.7] or ['new_classic']
+        rng.shuffle(acts)
+        rounds.append((rng.randrange(min(2, len(cat['context']))), rng.choice(GETTERS), tuple(acts), rng.choice((1, 2, 3))))
+    for rnd, (n, getter, acts, cycles) in enumerate(rounds if cat['context'] else []):
+        dh = cat['context'][n]
+        tag = f'er{rnd}'
+        for k in range(3):
             with mdib.context_state_transaction() as mgr:
-                mgr.write_entity(ent_other, [f'{tag}_new2', f'{tag}_2'])
-            if rnd % 2 == 0:
-                with mdib.descriptor_transaction() as mgr:      # the descriptor changes
-                    d = mgr.get_descriptor(dh)
-                    d.Type = pm_types.CodedValue('123', coding_system='urn:cs')
-                    d.Type.ConceptDescription = [pm_types.LocalizedText('concept')]
-                    d.SafetyClassification = rng.choice(list(pm_types.SafetyClassification))
+                _rich_context_state(mdib, mgr.mk_context_state(dh, f'{tag}_{k}'), rng, f'{tag}_{k}')
+        ent = _entity_via(mdib, getter, dh)           # the application keeps this entity
+        for cycle in range(cycles):
+            held = set(ent.states)
+            n_res = len(sink.results)
+            # foreign commits (another part of the application, an operation handler ...)
+            for act in acts:
+                if act == 'update_existing':
+                    with mdib.context_state_transaction() as mgr:
+                        st = mgr.get_context_state(f'{tag}_0')
+                        _rich_context_state(mdib, st, rng, f'{tag}_0b{cycle}')
+                elif act == 'new_classic':
+                    with mdib.context_state_transaction() as mgr:
+                        _rich_context_state(mdib, mgr.mk_context_state(dh, f'{tag}_new{cycle}', set_associated=True), rng, f'{tag}_new')
+                elif act == 'new_entity_and_delete':
+                    ent_other = mdib.entities.by_handle(dh)
+                    _rich_context_state(mdib, ent_other.new_state(f'{tag}_new2{cycle}'), rng, f'{tag}_new2')
+                    victim = f'{tag}_2' if cycle == 0 else f'{tag}_new2{cycle - 1}'
+                    ent_other.states.pop(victim, None)
+                    with mdib.context_state_transaction() as mgr:
+                        mgr.write_entity(ent_other, [f'{tag}_new2{cycle}'] + ([victim] if mdib.context_states.handle.get_one(victim, allow_none=True) else []))
+                else:
+                    with mdib.descriptor_transaction() as mgr:
+                        d = mgr.get_descriptor(dh)
+                        d.Type = pm_types.CodedValue(str(123 + cycle), coding_system='urn:cs')
+                        d.Type.ConceptDescription = [pm_types.LocalizedText('concept')]
+                        d.SafetyClassification = rng.choice(list(pm_types.SafetyClassification))
             for tr in sink.results[n_res:]:
                 for st in tr.ctxt_updates:
                     judge.publish('TransactionResult.ctxt_updates', st)
             refresh(ent, 'multi_state')
             added = [h for h in ent.states if h not in held]
             ctx.count('entity_update.states_added_by_update', len(added))
-            if f'{tag}_2' in ent.states:
-                ctx.count('entity_update.removed_state_still_there')    # (functional, not C03)
             for h, st in list(ent.states.items()):
                 if h in added:
                     judge.mutate_all('entity_update.new_state', st)
                 else:
                     judge.mutate_all('entity_update.refreshed_state', st)
             judge.mutate_all('entity_update.descriptor', ent.descriptor)
-            ctx.case(('entity_refresh', mdib_file, 'multi', getter))
+            ctx.case(('entity_refresh', mdib_file, 'multi', getter, acts, cycle))
             judge.recorded[:] = judge.recorded[-4:]
 
     # -- single-state entities --------------------------------------------------------------------
@@ -204,12 +247,14 @@ class _GateTimer:
     the code it runs are the library's.  (Ordering by events, never by wall-clock.)"""
 
     instances: list = []
+    created = threading.Event()
 
     def __init__(self, period_in_seconds):
         self.period_in_seconds = period_in_seconds
         self.gate = threading.Semaphore(0)
         self.at_gate = threading.Event()
         _GateTimer.instances.append(self)
+        _GateTimer.created.set()
 
     def wait_next_interval_begin(self):
         self.at_gate.set()      # everything of the previous period was handed to the send functions
@@ -235,7 +280,7 @@ _RESULT_MEMBER = {'metric': 'metric_updates', 'alert': 'alert_updates', 'compone
 
 def _wire_states(entries, netloc):
     """{(report name, DescriptorHandle, Handle, StateVersion): canonical XML of the state element} of all reports in the wire entries."""
-    found = {}
+    found = {}   # report name -> {(DescriptorHandle, Handle): {StateVersion: canonical xml}}
     for e in entries:
         if e.netloc != netloc or not e.body:
             continue
@@ -249,7 +294,11 @@ def _wire_states(entries, netloc):
             report = etree.QName(part.getparent()).localname
             for child in part:
                 if isinstance(child.tag, str) and child.get('DescriptorHandle') is not None:
-                    found.setdefault(report, {})[(child.get('DescriptorHandle'), child.get('Handle'), child.get('StateVersion', '0'))] = xml_canon(child)
+                    tag, attrs, text, children = xml_canon(child)
+                    if any(k.endswith('}type') and v.endswith('ClockState') for k, v in attrs):
+                        attrs = tuple(a for a in attrs if a[0] != 'DateAndTime')   # written with the time of serialisation: not MDIB content
+                    found.setdefault(report, {}).setdefault((child.get('DescriptorHandle'), child.get('Handle')), {})[
+                        child.get('StateVersion', '0')] = (tag, attrs, text, children)
     return found
 
 
@@ -265,6 +314,7 @@ def w_periodic(ctx: core.Ctx, arg):
     real_module = periodicreports.intervaltimer
     periodicreports.intervaltimer = types.SimpleNamespace(IntervalTimer=_GateTimer)   # only the periodic-reports module sees the gate
     _GateTimer.instances.clear()
+    _GateTimer.created.clear()
     world = None
     try:
         world = World(mdib_file, role_provider=False, periodic_reports_interval=3600)
@@ -274,10 +324,18 @@ def w_periodic(ctx: core.Ctx, arg):
         handler = world.provider._periodic_reports_handler
         judge = Judge(ctx, mdib, mdib_file)
         cat = mdibops.catalog(mdib)
+        episodic = {}      # what the commits of the running period published on the wire, per report kind
+
+        def note_episodic(n_log):
+            for report, states in _wire_states(world.network.log[n_log:], sink.netloc).items():
+                for key, versions in states.items():
+                    episodic.setdefault(report, {}).setdefault(key, {}).update(versions)
+
+        n_log = len(world.network.log)
         for h in cat['context'][:2]:
             with mdib.context_state_transaction() as mgr:
                 _rich_context_state(mdib, mgr.mk_context_state(h, f'pr_{h}'), rng, 'pr')
-        episodic = {}      # what the commits published on the wire, per report kind
+        note_episodic(n_log)
 
         def watch_store():
             n = 0
@@ -298,7 +356,7 @@ def w_periodic(ctx: core.Ctx, arg):
                 iface = ('classic', 'entity')[(rnd + len(kind)) % 2]
                 handles = rng.sample(pool, min(2, len(pool)))
                 held = []          # the application's own objects of this transaction
-                n_log, n_res = len(world.network.log), len(sink.results)
+                n_log, n_res, n_obs = len(world.network.log), len(sink.results), len(sink.observed)
                 with getattr(mdib, mdibops._TR[kind])() as mgr:
                     for h in handles:
                         if kind == 'context':
@@ -328,13 +386,12 @@ def w_periodic(ctx: core.Ctx, arg):
                     ctx.count('periodic.commit_without_result')
                     continue
                 tr = sink.results[-1]
-                for report, states in _wire_states(world.network.log[n_log:], sink.netloc).items():
-                    episodic.setdefault(report, {}).update(states)
+                note_episodic(n_log)
                 ctx.count('periodic.store_states_watched', watch_store())
                 # the application goes on working with what it got: transaction result (= *_by_handle observables), its own objects
                 for st in getattr(tr, _RESULT_MEMBER[kind]):
                     judge.mutate_all(f'TransactionResult.{_RESULT_MEMBER[kind]}', st, counter='periodic.mutations')
-                for name, value in sink.observed[-3:]:
+                for name, value in sink.observed[n_obs:]:
                     for st in value.values():
                         if not any(st is x for x in tr.all_states()):
                             ctx.count('observable.other_object_than_result')
@@ -346,8 +403,8 @@ def w_periodic(ctx: core.Ctx, arg):
                                      counter='periodic.mutations')
                 ctx.case(('periodic', mdib_file, kind, iface))
             # the period ends: the real loop thread sends what was collected
-            if not _GateTimer.instances:
-                ctx.count('periodic.loop_not_started')
+            if not _GateTimer.created.wait(120.0):    # (the loop thread constructs its timer a moment after start_all)
+                ctx.not_decided('the periodic-reports loop thread did not start (wall-clock watchdog)')
                 break
             n_log = len(world.network.log)
             if not _GateTimer.instances[0].one_period():
@@ -357,17 +414,25 @@ def w_periodic(ctx: core.Ctx, arg):
             judge.recorded[:] = [r for r in judge.recorded if not r[0].startswith('periodic_store.')]   # handed to the send functions
             for report, states in _wire_states(world.network.log[n_log:], sink.netloc).items():
                 want = episodic.get(_EPISODIC_OF.get(report, ''), {})
-                kind = report[len('Periodic'):-len('Report')].lower()
-                for key, xml in states.items():
+                kind = {'PeriodicOperationalStateReport': 'operational'}.get(report, report[len('Periodic'):-len('Report')].lower())
+                for key, versions in states.items():
                     if key not in want:
-                        ctx.count('periodic.wire_state_without_episodic')   # (e.g. published in a DescriptionModificationReport only)
+                        ctx.count('periodic.wire_state_without_episodic')   # (nothing of this state went out in an episodic report of this period)
                         continue
-                    ctx.count('periodic.wire_states_compared')
-                    if xml != want[key]:
-                        ctx.witness(f'isolation.periodic_report_wire.{kind}',
-                                    'the periodic report carries a state that differs from what the commit published in its episodic report under the '
-                                    'same StateVersion (the application only edited its private copies in between)',
-                                    {'report': report, 'state': key, 'diff': first_difference(want[key], xml), 'mdib_file': mdib_file})
+                    for version, xml in versions.items():
+                        ctx.count('periodic.wire_states_compared')
+                        if version not in want[key]:
+                            ctx.witness(f'isolation.periodic_report_wire.{kind}',
+                                        'the periodic report carries a state under a StateVersion that no commit of the period published (the '
+                                        'application only edited its private copies of the transaction results)',
+                                        {'report': report, 'state': key, 'version_on_the_wire': version, 'published': sorted(want[key]),
+                                         'mdib_file': mdib_file})
+                        elif xml != want[key][version]:
+                            ctx.witness(f'isolation.periodic_report_wire.{kind}',
+                                        'the periodic report carries a state that differs from what the commit published in its episodic report '
+                                        'under the same StateVersion (the application only edited its private copies in between)',
+                                        {'report': report, 'state': key, 'version': version, 'diff': first_difference(want[key][version], xml),
+                                         'mdib_file': mdib_file})
             episodic.clear()
     finally:
         periodicreports.intervaltimer = real_module
